@@ -147,14 +147,16 @@ func (it *refIt) show() string {
 // ---------------------------------------------------------------- system under test
 
 type sut struct {
-	backend string
-	dir     string
-	db      dbm.DB
-	ref     refMap
-	it      dbm.Iterator
-	rit     *refIt
-	tainted bool // the open iterator already diverged from the reference (reported once)
-	nOpen   int
+	backend      string
+	dir          string
+	db           dbm.DB
+	ref          refMap
+	it           dbm.Iterator
+	rit          *refIt
+	tainted      bool // the open iterator already diverged from the reference (reported once)
+	moves        int  // calls made on the open iterator
+	emptyRevSeek bool // a reverse Seek with an empty target was made on the open badger iterator
+	nOpen        int
 }
 
 var tmpRoot string
@@ -349,6 +351,8 @@ func (s *sut) openIt(start, end []byte, rev bool) {
 	s.it = s.db.Iterator(start, end, rev)
 	s.rit = newRefIt(s.ref, start, end, rev)
 	s.tainted = false
+	s.moves = 0
+	s.emptyRevSeek = false
 	r := "0"
 	if rev {
 		r = "1"
@@ -412,6 +416,10 @@ func (s *sut) move(op string, key []byte) string {
 		s.rit.seek(key)
 	}
 	want := s.rit.show()
+	s.moves++
+	if s.backend == "badger" && op == "seek" && len(key) == 0 && s.rit.rev {
+		s.emptyRevSeek = true
+	}
 	if impl != want && !s.tainted {
 		s.tainted = true
 		s.pred(s.classify(op, key, impl))
@@ -450,6 +458,10 @@ func (s *sut) classify(op string, key []byte, impl string) (site, kind, detail s
 	switch {
 	case impl == "panic":
 		return site + "." + opName[op], "panic", detail
+	case s.backend == "badger" && op == "next" && s.moves == 1:
+		return site + ".Next", "fresh-iterator-already-positioned", detail
+	case s.emptyRevSeek:
+		return site + ".Seek", "empty-target-in-reverse-lands-on-last-key", detail
 	case len(f) == 4 && f[1] == "1" && s.rit.limit != nil && f[2] == hx(s.rit.limit):
 		return site, "exclusive-end-bound-returned", detail
 	case op == "seek" && (bytes.Compare(key, s.rit.start) < 0 || (s.rit.limit != nil && bytes.Compare(key, s.rit.limit) >= 0)):
@@ -603,8 +615,8 @@ func runSequence(s *sut, r *gen.Rand, backend string, nops int, variant int) {
 			for j := 0; j < steps; j++ {
 				var res string
 				c := r.Pick(2, 5, 3)
-				if j == 0 && backend == "badger" && c == 1 {
-					c = 0 // a fresh badger iterator is already positioned; start sessions with rewind/seek
+				if j == 0 && backend == "badger" && c == 1 && !r.Chance(1, 8) {
+					c = 0 // mostly start badger sessions with rewind/seek (a fresh badger iterator is already positioned)
 				}
 				switch c {
 				case 0:
@@ -612,7 +624,11 @@ func runSequence(s *sut, r *gen.Rand, backend string, nops int, variant int) {
 				case 1:
 					res = s.move("next", nil)
 				default:
-					res = s.move("seek", g.near(noFF))
+					k := g.near(noFF)
+					if r.Chance(1, 25) {
+						k = nil // empty seek target
+					}
+					res = s.move("seek", k)
 				}
 				i++
 				if res == "panic" {
